@@ -392,6 +392,9 @@ def run_property(root, pid, tier, seed, replay, no_proofs=False):
     rc = 0
     replay_path = None
     violation_kind = None
+    stale = os.path.join(root, "replays", "%s-%s-%d.json" % (pid, tier, seed))
+    if os.path.exists(stale) and not replay:
+        os.remove(stale)
     if concrete:
         concrete.sort(key=shrink_key)
         replay_path = os.path.join(root, "replays", "%s-%s-%d.json" % (pid, tier, seed))
